@@ -432,6 +432,18 @@ func mutate(rt *rapid.T, src string) string {
 	n := rapid.IntRange(1, 4).Draw(rt, "nmut")
 	for i := 0; i < n && len(toks) > 0; i++ {
 		p := gen.Uniform(rt, "pos", len(toks))
+		if rapid.Bool().Draw(rt, "structural") {
+			// half of the mutations hit the tokens that carry the structure
+			var idx []int
+			for j, tk := range toks {
+				if structuralToken[tk] {
+					idx = append(idx, j)
+				}
+			}
+			if len(idx) > 0 {
+				p = idx[gen.Uniform(rt, "spos", len(idx))]
+			}
+		}
 		switch gen.Uniform(rt, "mut", 6) {
 		case 0: // delete
 			toks = append(toks[:p], toks[p+1:]...)
@@ -456,6 +468,9 @@ func mutate(rt *rapid.T, src string) string {
 	}
 	return strings.Join(toks, " ")
 }
+
+var structuralToken = map[string]bool{"{": true, "}": true, "(": true, ")": true, "[": true, "]": true, ";": true, ",": true, "in": true, "foreach": true,
+	"function": true, "if": true, "else": true, "while": true, "for": true, "switch": true, "case": true, "default": true, "return": true, "local": true, "=": true, "?": true, ":": true, "++": true, "--": true}
 
 func truncTokens(src string) []string {
 	var out []string
